@@ -273,7 +273,7 @@ fn expect_log(h: &Handles, m: &mut Model, want: &[Op]) -> Result<(), Fail> {
     Ok(())
 }
 
-fn case_seq(bytes: &[u8], _s: &[u8], ctx: &mut Ctx) -> Result<(), Fail> {
+pub fn case_seq(bytes: &[u8], _s: &[u8], ctx: &mut Ctx) -> Result<(), Fail> {
     let mut src = Source::new(bytes);
     let case = decode(&mut src);
     ctx.case(&case);
@@ -295,7 +295,7 @@ fn case_seq(bytes: &[u8], _s: &[u8], ctx: &mut Ctx) -> Result<(), Fail> {
     Ok(())
 }
 
-fn case_threads(bytes: &[u8], sched_bytes: &[u8], ctx: &mut Ctx) -> Result<(), Fail> {
+pub fn case_threads(bytes: &[u8], sched_bytes: &[u8], ctx: &mut Ctx) -> Result<(), Fail> {
     let mut src = Source::new(bytes);
     let nt = 2 + src.below(2);
     let threads: Vec<Vec<Step>> = (0..nt).map(|t| (0..1 + src.below(5)).map(|_| dec_step(&mut src, nt).with_clone(t)).collect()).collect();
